@@ -50,6 +50,12 @@ def gen_cases(tier, seed):
         rng = np.random.default_rng([seed, 2])
         idx = rng.choice(len(universe), size=170, replace=False)
         chosen = [universe[i] for i in idx]
+        # stratum: compounds with three or more atoms per primitive cell (several sublattices: the prototype cell is
+        # assembled from more than one basis-atom graph and regions may have to be merged)
+        have = {c["key"] for c in chosen}
+        multi = [c for c in universe if c["key"] not in have and
+                 slabs.COMPOUNDS.get(c["material"], ("",))[0] in ("perovskite", "rutile", "fluorite", "antifluorite", "wurtzite")]
+        chosen += [multi[i] for i in rng.choice(len(multi), size=min(70, len(multi)), replace=False)]
         listed = set(finding_cells())
         have = {c["key"] for c in chosen}
         extra = [c for c in universe if c["key"] in listed and c["key"] not in have]
